@@ -240,6 +240,14 @@ class Check:
                         self.known_hits.setdefault(k["id"], k)
                         kf_obls.append({"obligation": sig, "finding": k["id"], "witness": ob.get("model")})
                         continue
+                    if u.get("new_abstraction") and ob.get("replay"):
+                        # the model passes through an abstraction this unit never needed on the validated tree, but the unit can turn it into a
+                        # concrete call of the real function: it counts if (and only if) that call reproduces the failure
+                        self.violations.append({"sig": sig, "kind": "obligation", "unit": u["unit"], "detail": ob,
+                                                "replay": {"module": "bounded.cex", "prop": self.prop, "case": ob["replay"]},
+                                                "only_if_reproduced": "counter-model rests on calls abstracted only in this tree: "
+                                                                      + ", ".join(u["new_abstraction"])[:200]})
+                        continue
                     if u.get("new_abstraction"):
                         self.undecided.append({"unit": u["unit"], "obligation": sig,
                                                "reason": "counter-model rests on calls abstracted only in this tree: "
@@ -303,6 +311,13 @@ class Check:
                 json.dump(payload, open(fn, "w"), indent=1, default=str)
                 rc, out = replay_counter_model(fn)
                 payload["counter_model_replay"] = {"exit": rc, "output": out[-1500:]}
+                if rc != 1 and v.get("only_if_reproduced"):
+                    self.undecided.append({"unit": v.get("unit"), "obligation": v["sig"], "reason": v["only_if_reproduced"] + " (and its replay on the real code did not fail)"})
+                    try:
+                        os.unlink(fn)
+                    except OSError:
+                        pass
+                    continue
                 if rc != 1:
                     payload["replay"] = None
                     payload["counter_model_input"] = _jsonable(v.get("replay"))
